@@ -49,6 +49,7 @@ def cmd_replay(args):
 
 def cmd_selftest(args):
     from .core import selftest
+    _quiet()
     return selftest.main(args)
 
 
